@@ -64,12 +64,34 @@ func verdictTC(m *kit.Member, tc hotstuff.TimeoutCert) bool {
 	return m.Auth.VerifyTimeoutCert(tc) == nil
 }
 
+// verdictAgg: BLS batch verification adds its pairs in map-iteration order, and the pinned pairing library returns a wrong
+// product for some inputs depending on which pair comes first (open finding 30 of C02): the SAME aggregate certificate can be
+// accepted by one call and refused by the next. A refusal is therefore only taken as the verdict if it repeats (false
+// acceptances do not occur), so that both sides of a round-trip comparison get the certificate's real verdict.
 func verdictAgg(m *kit.Member, a hotstuff.AggregateQC) bool {
 	if a.Sig() == nil {
 		return false
 	}
-	_, err := m.Auth.VerifyAggregateQC(a)
-	return err == nil
+	for try := 0; try < 6; try++ {
+		if _, err := m.Auth.VerifyAggregateQC(a); err == nil {
+			return true
+		} else if !strings.Contains(err.Error(), "bls12: failed to verify") {
+			return false
+		}
+	}
+	return false
+}
+
+// verdictAny is VerifyAnyQC with the same treatment.
+func verdictAny(m *kit.Member, p *hotstuff.ProposeMsg) bool {
+	for try := 0; try < 6; try++ {
+		if err := m.Auth.VerifyAnyQC(p); err == nil {
+			return true
+		} else if !strings.Contains(err.Error(), "bls12: failed to verify") {
+			return false
+		}
+	}
+	return false
 }
 
 func verdictSync(m *kit.Member, si hotstuff.SyncInfo) string {
@@ -109,7 +131,7 @@ func verdictTimeout(m *kit.Member, tm hotstuff.TimeoutMsg) string {
 func verdictProposal(m *kit.Member, p hotstuff.ProposeMsg) string {
 	s := fmt.Sprintf("qc=%v ", verdictQC(m, p.Block.QuorumCert()))
 	if p.AggregateQC == nil {
-		return s + fmt.Sprintf("any=%v", m.Auth.VerifyAnyQC(&p) == nil)
+		return s + fmt.Sprintf("any=%v", verdictAny(m, &p))
 	}
 	if p.AggregateQC.Sig() == nil {
 		return s + "agg=nosig"
@@ -130,7 +152,7 @@ func verdictProposal(m *kit.Member, p hotstuff.ProposeMsg) string {
 			valid = append(valid, qc)
 		}
 	}
-	return s + fmt.Sprintf("any=%v", m.Auth.VerifyAnyQC(&p) == nil)
+	return s + fmt.Sprintf("any=%v", verdictAny(m, &p))
 }
 
 // ---------------------------------------------------------------------------------------------------------------------
@@ -141,7 +163,7 @@ func roundTripProp(c Case) common.Result {
 	sender := w.ms[mod(c.Sender, w.n)]
 	recv := w.ms[mod(c.Sender+1, w.n)]
 	f := &feat{}
-	var diff, verdict string
+	var diff, verdict, detail string
 	fail := func(what string, err error) common.Result {
 		return common.Fail("wire:"+what, "%s %s: marshal/unmarshal failed: %v", c.Kind, w.scheme, err)
 	}
@@ -283,12 +305,13 @@ func roundTripProp(c Case) common.Result {
 		verdict = vx
 		if diff == "" && vx != vy {
 			diff = "timeout.verdict"
+			detail = fmt.Sprintf("sent: %s | decoded: %s", vx, vy)
 		}
 	default:
 		return common.OK(false, "empty")
 	}
 	if diff != "" {
-		return common.Fail("roundtrip:"+diff, "%s (%s, n=%d): the decoded object differs from the sent one at %s", c.Kind, w.scheme, w.n, diff)
+		return common.Fail("roundtrip:"+diff, "%s (%s, n=%d): the decoded object differs from the sent one at %s %s", c.Kind, w.scheme, w.n, diff, detail)
 	}
 	shape := fmt.Sprintf("%s|%s|n=%d|agg=%v|%s|verdict=%s", c.Kind, w.scheme, w.n, c.Agg, strings.Join(f.tokens, ","), verdict)
 	classes := []string{"kind:" + c.Kind, "scheme:" + w.scheme, "kind-scheme:" + c.Kind + "/" + w.scheme, "verdict:" + c.Kind + "=" + verdictClass(verdict)}
